@@ -3,6 +3,7 @@ package checkers
 import (
 	"go/ast"
 	"go/constant"
+	"math"
 	"sort"
 	"strconv"
 	"unicode"
@@ -62,6 +63,11 @@ func (c *badRegexpChecker) VisitExpr(x ast.Expr) {
 			return
 		}
 		pat := constant.StringVal(cv)
+		if len(pat) > math.MaxUint16 {
+			// The regex parser stores positions as uint16 and
+			// breaks (slice bounds panic) on longer patterns.
+			return
+		}
 		c.cause = call.Args[0]
 		c.checkPattern(pat)
 	}
